@@ -5,7 +5,7 @@ NOT_APPLICABLE = {
            "threads or multiprocessing symbolically, and a sequential stub would decide one schedule only (DESIGN §4 C13)",
 }
 ENGINES = [
-    {"name": "pysym", "path": "vf/pysym", "serves_properties": ["C17", "C07", "C06", "C09", "C10", "C12", "C04", "C18", "C08", "C15"],
+    {"name": "pysym", "path": "vf/pysym", "serves_properties": ["C17", "C07", "C06", "C09", "C10", "C12", "C04", "C18", "C08", "C15", "C01", "C14"],
      "kind_free_text": "bounded path-forking symbolic interpreter over the AST of the real py7zr sources (re-parsed "
                        "from /repo on every run), z3 bit-vectors / integers / ropes; solver verdict per path"},
 ]
@@ -23,6 +23,31 @@ WR_NOTE = ("codec libraries replaced by a contract stub (consumes the source, wr
            "abstraction; the independent reference reader/writer in /verif is the oracle; session shapes are an enumerated bound, "
            "all sizes/CRCs/timestamps symbolic; payload bytes and real codecs are outside")
 CHECKS = {
+    "C01": dict(engine=B, ref="DESIGN.md §4 C01",
+                technique="bounded symbolic execution of the real buffering kernels from the AST in a rope domain (content-abstract "
+                          "byte strings with symbolic, unbounded lengths) and of the real create session + reader on its header; z3 "
+                          "(LIA) decides path∧¬post",
+                text="Relative to the codec contract: (1) AESCompressor/AESDecompressor hand the cipher only multiples of 16 bytes, "
+                     "in order, input++zero padding, and return exactly the cipher's output, for 1-3 (4) chunks of any length; "
+                     "(2) SevenZipCompressor.compress/flush with 1-3 (4) FIFO stages: the whole source is read in blocks <= block "
+                     "size, fp receives exactly the last stage's output, packsize/digest/per-stage unpack sizes/member CRC cover "
+                     "exactly those bytes; (3) SevenZipDecompressor.decompress over 2-3 (4) calls with any max_length, block size, "
+                     "short reads, limit-honouring or -ignoring stages: chunks concatenate to a prefix of the ideal stream, each <= "
+                     "max_length, delivered+carried = produced, consumed <= packed size, digest covers what was returned; (4) what a "
+                     "create session writes into the header is read back by the real reader with the same names, order, sizes, "
+                     "CRCs, kinds; (5) UTF-16 names of every scalar value round-trip.",
+                note=WR_NOTE + "; rope domain is exact only for code that does not inspect content; loop/ call counts bounded as "
+                     "stated, lengths unbounded; codecs, real files, multi-volume targets, parameter ranges are outside"),
+    "C14": dict(engine=B, ref="DESIGN.md §4 C14",
+                technique="bounded symbolic execution of the real closing sequence (operation log with symbolic positions) and of "
+                          "SignatureHeader write/_read on torn images new[0:p]++old[p:32] for all 33 prefixes; CRC collision-free; z3 decides",
+                text="(1) in create and append sessions every write at an offset >= 32 precedes the final 32-byte signature-header "
+                     "rewrite, and the placeholder written first cannot verify; (2) for every prefix p of the final rewrite and every "
+                     "value of the old and new header fields, a torn signature header that the real reader accepts is byte-identical "
+                     "to the new header (commit happened) or, in append, to the old one; (3) appends write nothing into the old "
+                     "packed area (C08 obligation, re-checked on the log).",
+                note="crash = prefix of the ordered write stream at byte granularity; OS reordering / dropped blocks, multivolume "
+                     "files and CRC collisions are outside; codec stub and NUMBER tokens as in C07"),
     "C08": dict(engine=B, ref="DESIGN.md §4 C08",
                 technique="bounded symbolic execution of the real reader on a reference-written base header followed by the real "
                           "append path (_prepare_append, Header.initialize, _writef/write, flush_archive, Header.write) from the "
